@@ -4,6 +4,7 @@ import (
 	"fmt"
 	"go/constant"
 	"go/types"
+	"golang.org/x/tools/go/ssa"
 	"strings"
 )
 
@@ -29,6 +30,7 @@ type Env struct {
 	bound  map[string]boundVar
 	pkg    *types.Package
 	qctr   *int
+	fn     *ssa.Function // the function whose names the contract text uses (rename tolerance, see locals.go)
 }
 
 func (e *Env) withState(st *State) *Env {
@@ -217,6 +219,15 @@ func (e *Env) tr(x Expr) TV {
 			if obj := e.pkg.Scope().Lookup(x.Name); obj != nil {
 				if c, ok := obj.(*types.Const); ok {
 					return TV{T: constTerm(c.Val(), c.Type()), Ty: c.Type()}
+				}
+			}
+		}
+		// a parameter, result or local that was merely renamed since the committed baseline
+		if e.fn != nil && e.lookup != nil {
+			if alias := renamedName(e.fn, x.Name); alias != "" {
+				if tv, ok := e.lookup(e, alias); ok {
+					e.u.AssumedUse["name "+x.Name+" of "+canonFn(e.fn)+" read as its renamed successor "+alias] = true
+					return tv
 				}
 			}
 		}
